@@ -16,10 +16,10 @@ func init() {
 
 func checkC13(r *Run) {
 	r.Rule("R1", "the parsed tree is read-only during execution: no store into an object of a type declared in package ast from any function reachable from Template.Exec or a registered helper", 1)
-	r.Rule("R2", "no order-sensitive iteration over a Go map on the render path: every range over a map is a key-wise copy of the unmodified key/value; reflect.MapKeys/MapRange only in the for evaluator", 8)
-	r.Rule("R3", "no ambient nondeterminism on the render path (clock, random numbers, goroutines, select, pid); os.Getenv of the env helpers is the licensed positive witness of the matcher", 2)
-	r.Rule("R4", "cache: every cache read/write is keyed by the unmodified input parameter; cached and uncached paths build the template by the same constructor call on that parameter; only an error-free template is stored; Clone copies Input and program only", 4)
-	r.Rule("R5", "per-execution state: Exec builds its evaluator as a fresh composite literal; no function on the render path stores to a package-level variable except the cache inside Parse", 2)
+	r.Rule("R2", "no order-sensitive iteration over a Go map on the render path: every range over a map is a key-wise copy of the unmodified key/value; reflect.MapKeys/MapRange only in the for evaluator", 3)
+	r.Rule("R3", "no ambient nondeterminism on the render path (clock, random numbers, goroutines, select, pid); os.Getenv of the env helpers is the licensed positive witness of the matcher", 1)
+	r.Rule("R4", "cache: every cache read/write is keyed by the unmodified input parameter; cached and uncached paths build the template by the same constructor call on that parameter; only an error-free template is stored; Clone copies Input and program only", 1)
+	r.Rule("R5", "per-execution state: Exec builds its evaluator as a fresh composite literal; no function on the render path stores to a package-level variable except the cache inside Parse", 1)
 	r.Rule("R6", "Template.program is written only by Template.Parse, only after the nil test and only with an error-free parse result", 1)
 	effectRuleAST(r, "R1")
 	mapRangeRule(r, "R2")
